@@ -27,6 +27,10 @@ def run_shard(mod, ctx):
     try:
         res = mod.run(ctx)
         res.notes['in_process_interference_before_workload'] = 'done' if warmed else 'raised (ignored)'
+        if os.environ.get('VERIF_FLAVOUR'):
+            res.count('shards_under_' + os.environ['VERIF_FLAVOUR'].replace(' ', '_').replace('-', ''))
+            if __debug__:
+                res.inconclusive.append('the optimised-interpreter shard ran with __debug__ set')
     except core.Inconclusive as e:
         res = core.Result()
         res.inconclusive.append(str(e))
@@ -43,6 +47,17 @@ def run_sharded(prop, tier, seed, nshards, timeout):
         cmd = [sys.executable, '-m', 'vlib.main', prop, tier, '--shard', str(i), str(nshards), '--out', out]
         env = dict(os.environ, VERIF_SEED=str(seed))
         procs.append((i, out, subprocess.Popen(cmd, env=env, stdout=subprocess.PIPE, stderr=subprocess.STDOUT)))
+    # interpreter flavour: shard 0's workload once more under `python -O` (asserts compiled away, __debug__ False) and, in
+    # the thorough tier, under `python -OO` (docstrings stripped as well): how the interpreter was started is part of the
+    # machine the tool runs on.  Contract libraries switch themselves off there; the oracles of the checks do not.
+    mod = load_prop(prop)
+    if not getattr(mod, 'NO_OPTIMIZED_FLAVOUR', False):
+        for flag in (('-O',) if tier == 'quick' else ('-O', '-OO')):
+            out = os.path.join(tmpdir, f'shard0{flag}.json')
+            cmd = [sys.executable, flag, '-m', 'vlib.main', prop, tier, '--shard', '0', str(nshards), '--out', out]
+            env = dict(os.environ, VERIF_SEED=str(seed), VERIF_FLAVOUR=f'python {flag}')
+            procs.append((f'0 under python {flag}', out, subprocess.Popen(cmd, env=env, stdout=subprocess.PIPE,
+                                                                          stderr=subprocess.STDOUT)))
     merged = core.Result()
     deadline = time.time() + timeout
     for i, out, p in procs:
@@ -157,10 +172,7 @@ def main(argv):
     nshards = max(1, min(nshards, os.cpu_count() or 1))
     timeout = getattr(mod, 'THOROUGH_TIMEOUT', 3600) if tier == 'thorough' else getattr(mod, 'QUICK_TIMEOUT', 600)
     try:
-        if nshards == 1:
-            res = run_shard(mod, core.Ctx(prop, tier, seed, 0, 1))
-        else:
-            res = run_sharded(prop, tier, seed, nshards, timeout)
+        res = run_sharded(prop, tier, seed, nshards, timeout)
     except Exception:
         traceback.print_exc()
         print(f'INCONCLUSIVE property={prop} reason=harness failure (see traceback above)')
